@@ -29,6 +29,13 @@ Theorem C05_checker_sound : forall g m, is_perfect_matching g m = true ->
     exists j, nth_error m i = Some (Some j) /\ j <> i /\ In j (nth i g []) /\ nth j m None = Some i.
 Proof. exact is_perfect_matching_sound. Qed.
 
+(* the chemistry tables _prune_from_ds reads are the periodic-table values *)
+Theorem C05_valence_tables_documented :
+  (forall e, assoc e valence_electrons = assoc e doc_valence_electrons) /\
+  (forall e, assoc e aromatic_valences = assoc e doc_aromatic_valences).
+Proof. exact valence_tables_documented. Qed.
+
+Print Assumptions C05_valence_tables_documented.
 Print Assumptions C05_matching_sound_refuted.
 Print Assumptions C05_statement_refuted.
 Print Assumptions C05_checker_sound.
